@@ -251,6 +251,9 @@ pub enum FCase {
     Special { path: String },
     Directory,
     Missing,
+    /// a read-only loop block device over an image of `blocks` x 512 bytes (seekable and mappable, but fstat reports
+    /// size 0); skipped with no verdict where `losetup` is not available
+    BlockDevice { mode: ModeC, prefix_len: u16, blocks: u32, content: Content },
     /// a named pipe fed by a writer thread in `pieces` (short reads, no length, not mappable); api: 0 = update_mmap,
     /// 1 = update_mmap_rayon, 2 = update_reader(File)
     Fifo { mode: ModeC, prefix_len: u16, pieces: Vec<u32>, content: Content, api: u8, pause_us: u16 },
@@ -390,6 +393,27 @@ pub fn check_file(c: &FCase) -> Result<(), String> {
             ensure!(h.count() == 0 && h.finalize() == blake3::hash(b""), "a failed update_mmap changed the hasher");
             Ok(())
         }
+        FCase::BlockDevice { mode, prefix_len, blocks, content } => {
+            let all = content.expand(*prefix_len as usize + *blocks as usize * 512);
+            let (prefix, data) = all.split_at(*prefix_len as usize);
+            let img = ScratchFile::with_bytes("c11-img", data).map_err(|e| format!("ENGINE scratch file: {}", e))?;
+            let out = match std::process::Command::new("losetup").arg("--find").arg("--show").arg("--read-only").arg(&img.path).output() {
+                Ok(o) if o.status.success() => o,
+                _ => return Ok(()), // no loop devices here: nothing to check
+            };
+            let dev = String::from_utf8_lossy(&out.stdout).trim().to_string();
+            struct Detach(String);
+            impl Drop for Detach {
+                fn drop(&mut self) {
+                    let _ = std::process::Command::new("losetup").arg("-d").arg(&self.0).output();
+                }
+            }
+            let _d = Detach(dev.clone());
+            if !dev.starts_with("/dev/") || std::fs::File::open(&dev).is_err() {
+                return Ok(());
+            }
+            three_ways(mode, prefix, std::path::Path::new(&dev), data).map_err(|e| format!("[block device {} over a {}-byte image] {}", dev, data.len(), e))
+        }
         FCase::Fifo { mode, prefix_len, pieces, content, api, pause_us } => check_fifo(mode, *prefix_len, pieces, content, *api, *pause_us),
         FCase::Missing => {
             let p = crate::hist::scratch_dir().join("does-not-exist");
@@ -418,6 +442,7 @@ pub fn classify_file(c: &FCase) -> Classes {
         FCase::Special { .. } => Classes::new(true).tag(true, "special-path"),
         FCase::Directory => Classes::new(true).tag(true, "directory"),
         FCase::Missing => Classes::new(true).tag(true, "missing-path"),
+        FCase::BlockDevice { blocks, .. } => Classes::new(true).tag(true, "block-device").tag(*blocks >= 32, "block-device>=16KiB"),
         FCase::Fifo { pieces, api, .. } => Classes::new(pieces.len() >= 2)
             .tag(true, "named-pipe")
             .tag(pieces.len() >= 2, "pipe-fed-in-pieces")
@@ -452,6 +477,10 @@ fn file_items(tier: Tier) -> Box<dyn Iterator<Item = FCase>> {
     }
     v.push(FCase::Directory);
     v.push(FCase::Missing);
+    // block devices (loop devices over scratch images): below, at and above the 16 KiB mapping threshold
+    for (i, blocks) in [1u32, 31, 32, 33, 1954].iter().enumerate() {
+        v.push(FCase::BlockDevice { mode: if i % 2 == 0 { ModeC::Hash } else { ModeC::Keyed(*gen::TEST_KEY) }, prefix_len: if i == 2 { 100 } else { 0 }, blocks: *blocks, content: Content { kind: 3, seed: 700 + i as u64 } });
+    }
     // named pipes: one piece, several short pieces, pieces around the 16 KiB mapping threshold and the 64 KiB read buffer
     let shapes: Vec<Vec<u32>> = vec![vec![], vec![1], vec![5000, 5000, 5000], vec![16383, 1, 16384], vec![16384], vec![65536, 1], vec![100, 70_000, 3], vec![4096; 40], vec![1; 50]];
     for (i, pieces) in shapes.into_iter().enumerate() {
@@ -606,7 +635,7 @@ pub fn subs() -> Vec<Box<dyn DynSub>> {
         }),
         Box::new(EnumSub::<FCase> {
             name: "files-lattice",
-            rule: "enumeration: regular files of lengths 0,1,..,every length 16370..=16400 (16 KiB mapping threshold), 32 KiB/64 KiB/128 KiB +-1, ... in three modes with and without a prefix; special paths present on this system with stable content (/proc/version, /dev/null, /proc/kallsyms, /sys/kernel/btf/vmlinux whose mmap fails, ...), named pipes fed in pieces by a writer thread (9 shapes x 3 APIs), a directory, a missing path; oracle: update_mmap == update_mmap_rayon == update_reader(File) == spec(file bytes); directory/missing give Err and leave the hasher untouched",
+            rule: "enumeration: regular files of lengths 0,1,..,every length 16370..=16400 (16 KiB mapping threshold), 32 KiB/64 KiB/128 KiB +-1, ... in three modes with and without a prefix; special paths present on this system with stable content (/proc/version, /dev/null, /proc/kallsyms, /sys/kernel/btf/vmlinux whose mmap fails, ...), named pipes fed in pieces by a writer thread (9 shapes x 3 APIs), read-only loop block devices over images of 512 B-1 MB (where losetup works), a directory, a missing path; oracle: update_mmap == update_mmap_rayon == update_reader(File) == spec(file bytes); directory/missing give Err and leave the hasher untouched",
             items: file_items,
             classify: classify_file,
             check: check_file,
